@@ -336,6 +336,48 @@ func (P *Prog) CalleesOfCall(c ssa.CallInstruction) []*ssa.Function {
 		}
 		return P.implsOf(it, cc.Value.Type().String(), cc.Method)
 	}
+	if cc.StaticCallee() == nil {
+		// dynamic call of a function value: follow phis / single stores to the closures or functions it may hold
+		var out []*ssa.Function
+		seen := map[ssa.Value]bool{}
+		var walk func(v ssa.Value, d int)
+		walk = func(v ssa.Value, d int) {
+			if v == nil || seen[v] || d > 6 {
+				return
+			}
+			seen[v] = true
+			switch x := v.(type) {
+			case *ssa.Phi:
+				for _, e := range x.Edges {
+					walk(e, d+1)
+				}
+			case *ssa.MakeClosure:
+				if f, ok := x.Fn.(*ssa.Function); ok {
+					u := P.unwrap(f)
+					if P.isRepoFunc(u) {
+						out = append(out, u)
+					}
+				}
+			case *ssa.Function:
+				u := P.unwrap(x)
+				if P.isRepoFunc(u) {
+					out = append(out, u)
+				}
+			case *ssa.UnOp:
+				if al, ok := x.X.(*ssa.Alloc); ok {
+					for _, r := range *al.Referrers() {
+						if st, ok := r.(*ssa.Store); ok && st.Addr == al {
+							walk(st.Val, d+1)
+						}
+					}
+				}
+			case *ssa.ChangeType:
+				walk(x.X, d+1)
+			}
+		}
+		walk(cc.Value, 0)
+		return out
+	}
 	if fn := cc.StaticCallee(); fn != nil {
 		u := P.unwrap(fn)
 		if P.isRepoFunc(u) {
